@@ -38,6 +38,8 @@ def main():
     strs = [["STR$", "(", "A", ")"], ["HEX$", "(", "A", ")"], ["STRING$", "(", "2", ",", "A$", ")"], ["INKEY$"], ["A$", "+", "STR$", "(", "2", ")"],
             ["LEFT$", "(", "HEX$", "(", "2", ")", ",", "INT", "(", "A", ")", ")"],
             ["N$", "(", "1", ")"], ["N$", "(", "INT", "(", "A", ")", ")", "+", "A$"], ["M$", "(", "1", ",", "2", ")"]]
+    nums += [["INT", "(", "VAL", "(", "A$", ")", ")"], ["INSTR", "(", "INT", "(", "A", ")", ",", "A$", ",", "STR$", "(", "2", ")", ")"], ["VAL", "(", "HEX$", "(", "INT", "(", "A", ")", ")", ")"]]
+    strs += [["STR$", "(", "INT", "(", "A", ")", ")"], ["STRING$", "(", "INT", "(", "A", ")", ",", "S:AB", ")"], ["HEX$", "(", "VAL", "(", "A$", ")", ")"]]
     nums += [["D", "(", "1", ")"], ["LEN", "(", "N$", "(", "2", ")", ")"], ["D", "(", "INT", "(", "A", ")", ")", "+", "1"]]
     for tag, tpl in c05.CONTEXTS:
         for k in range(12 if thorough else 4):
